@@ -504,12 +504,17 @@ func (f *feedSource) Read(p []byte) (int, error) {
 
 // runScripted: a slow consumer with a one-slot channel receives in bursts chosen by a seeded script while the
 // input arrives in bursts chosen by the same script, with settle pauses in between; a second consumer never blocks.
+var scriptedMissing int
+
 func runScripted(w *tr.Writer, rng *rand.Rand, procs int) { runScriptedV(w, rng, procs, -1) }
 
 // runScriptedV: variant >= 0 plays one fixed interaction instead of a seeded one: a backlog builds up behind a full
 // one-slot consumer, everything settles, then the consumer takes `nrecv` messages back to back and new input arrives
 // at that very moment - the instant at which anything that queues per consumer has a batch in flight
 func runScriptedV(w *tr.Writer, rng *rand.Rand, procs int, variant int) {
+	if scriptedMissing >= 6 {
+		return // messages have gone missing in six interactions already: the rest would only wait for more that never come
+	}
 	nmsg := 6 + rng.Intn(8)
 	if variant >= 0 {
 		nmsg = 8
@@ -551,7 +556,8 @@ func runScriptedV(w *tr.Writer, rng *rand.Rand, procs int, variant int) {
 			slowGot = append(slowGot, m)
 			got++
 			return true
-		case <-time.After(5 * time.Second):
+		case <-time.After(2 * time.Second):
+			scriptedMissing++
 			return false
 		}
 	}
